@@ -8,8 +8,7 @@
      fall-through and the `newLength > length` test
    The Array.prototype methods themselves are coded in builtin_array.go as the
    15.4.4 step lists over hasProperty/get/put/delete; they are the methods of
-   Spec.v instantiated with the dialect [otto] below, whose switches are the
-   places where the Go text departs from the step list. *)
+   Spec.v instantiated with the dialect [otto] below. *)
 From Coq Require Import ZArith Bool List Lia.
 From Otto Require Import Common.Corr Common.Double C08.Spec.
 Import ListNotations.
@@ -199,11 +198,4 @@ Definition otto_def_array (o : obj) (k : key) (d : desc) (throw : bool) : obj * 
   end.
 
 Definition otto : dialect :=
-  mkDia otto_def_array otto_rel otto_cnt otto_indexof otto_lastindexof true true true.
-
-(* ES5 with otto's open departures number 2..c switched on (numbering of the finding classes,
-   see Corr.v); the correspondence run uses these to name the first departure that
-   makes a history disagree with ES5 *)
-Definition upto (c : Z) : dialect :=
-  mkDia def_array (dia_rel es5) (dia_cnt es5) (dia_indexof es5) (dia_lastindexof es5)
-        (2 <=? c) (3 <=? c) (4 <=? c).
+  mkDia otto_def_array otto_rel otto_cnt otto_indexof otto_lastindexof.
